@@ -138,11 +138,13 @@ def toepRun (T0 : K) (TC TR Z : List K) : Nat → TpState K
   | 0 => { A := [], B := [], P := T0, X := [nth Z 0 / T0] }
   | k + 1 => toepStep TC TR Z (toepRun T0 TC TR Z k) k
 
-/-- `TOEPLITZ(T0, TC, TR, Z)` -/
-def toeplitz [ReOrd K] (T0 : K) (TC TR Z : List K) : Except String (List K) :=
+/-- `TOEPLITZ(T0, TC, TR, Z)`: a general Toeplitz system need not be positive definite; the code raises when `T0` or a
+    later stage variable `P` is exactly zero -/
+def toeplitz [IsZero K] (T0 : K) (TC TR Z : List K) : Except String (List K) :=
   let M := TC.length
   if M = 0 || TR.length ≠ M then .error "assert"
-  else if (List.range M).any (fun j => reLe0 (toepRun T0 TC TR Z (j + 1)).P) then .error "value"
+  else if isZero T0 then .error "value"
+  else if (List.range M).any (fun j => isZero (toepRun T0 TC TR Z (j + 1)).P) then .error "value"
   else .ok (toepRun T0 TC TR Z M).X
 
 end SpecVerif
